@@ -37,6 +37,19 @@ run() {
     C18-m5) extra="C03 C19" ;;
     C18-m6) extra="C15" ;;
     C19-m6) extra="C06" ;;
+    C01-m8|C07-m8) extra="C01 C07" ;;
+    C04-m7) extra="C16" ;;
+    C04-m8|C06-m8) extra="C06 C04 C15 C19" ;;
+    C09-m8) extra="C11" ;;
+    C10-m7) extra="C05 C09" ;;
+    C11-m7) extra="C10" ;;
+    C12-m7|C12-m8) extra="C18" ;;
+    C14-m7) extra="C12" ;;
+    C14-m8) extra="C13 C09" ;;
+    C15-m8) extra="C18" ;;
+    C17-m8) extra="C18" ;;
+    C18-m7) extra="C16 C15" ;;
+    C19-m8) extra="C06" ;;
   esac
   tools/matrix.sh $s $(echo $own $extra | tr ' ' '\n' | awk '!seen[$0]++' | tr '\n' ' ')
 }
